@@ -208,6 +208,12 @@ func genC25T(seed uint64) *Plan {
 	if r.Chance(0.6) {
 		wts["dispose"] = 0
 	}
+	// the client manager as a public type of its own: registration, listing and Dispose
+	// (end of life) from several callers
+	if r.Chance(0.5) {
+		kinds = append(kinds, "cm_register", "cm_unregister", "cm_clients", "cm_dispose")
+		wts["cm_register"], wts["cm_unregister"], wts["cm_clients"], wts["cm_dispose"] = 5, 3, 2, 2
+	}
 	rounds := 3 + r.Intn(8)
 	for k := 0; k < rounds; k++ {
 		var sub []Step
@@ -229,9 +235,17 @@ type c25TOracle struct {
 	outs     []*adjRIBOut.AdjRIBOut
 	clients  []*nullClient
 	disposed bool
+	cm       *routingtable.ClientManager
 }
 
+// cmMaster is the table behind a bare ClientManager: the initial dump to a new client
+type cmMaster struct{}
+
+func (cmMaster) UpdateNewClient(c routingtable.RouteTableClient) error { c.EndOfRIB(); return nil }
+
 func (o *c25TOracle) Init(w *World) {
+	o.cm = routingtable.NewClientManager(cmMaster{})
+	simrt.LabelPointer(o.cm)
 	o.rib = locRIB.New("c25")
 	simrt.LabelPointer(o.rib)
 	for i := 0; i < 3; i++ {
@@ -278,6 +292,16 @@ func (o *c25TOracle) apply(w *World, i int, s *Step) {
 	case "dump":
 		out := o.outs[s.Peer]
 		w.Go("Dump", func() { o.rib.Dump(); out.Dump(); o.rib.Count() })
+	case "cm_register":
+		c := o.clients[s.Peer]
+		w.Go("ClientManager.RegisterWithOptions("+c.name+")", func() { o.cm.RegisterWithOptions(c, routingtable.ClientOptions{BestOnly: true}) })
+	case "cm_unregister":
+		c := o.clients[s.Peer]
+		w.Go("ClientManager.Unregister("+c.name+")", func() { o.cm.Unregister(c) })
+	case "cm_clients":
+		w.Go("ClientManager.Clients", func() { o.cm.Clients(); o.cm.ClientCount() })
+	case "cm_dispose":
+		w.Go("ClientManager.Dispose", func() { o.cm.Dispose() })
 	case "dispose":
 		o.disposed = true
 		w.Go("LocRIB.Dispose", func() { o.rib.Dispose() })
@@ -291,6 +315,8 @@ func (o *c25TOracle) Final(w *World) {
 	w.Go("final LocRIB.AddPath", func() { o.rib.AddPath(ToBnetPrefix(P4(203, 0, 113, 0, 24)), w.Plan.Cands[0].build(0)) })
 	w.Go("final RegisterWithOptions", func() { o.rib.RegisterWithOptions(&nullClient{name: "late"}, routingtable.ClientOptions{BestOnly: true}) })
 	w.Go("final ClientCount", func() { o.rib.ClientCount() })
+	w.Go("final ClientManager.RegisterWithOptions", func() { o.cm.RegisterWithOptions(&nullClient{name: "latecm"}, routingtable.ClientOptions{BestOnly: true}) })
+	w.Go("final ClientManager.Clients", func() { o.cm.Clients() })
 	if w.checkWedged() {
 		w.Env.probe("wedged_at_final_usability_check")
 	}
